@@ -320,6 +320,10 @@ pub fn to_array() -> Function {
 
 pub fn standard_library() -> Module {
     let mut module = Module::default();
+    #[cfg(feature = "verif-hooks")]
+    if crate::verif_hooks::empty_stdlib() {
+        return module;
+    }
     module.functions.push(("to_array".to_string(), to_array()));
     module.functions.push(("filter".to_string(), filter()));
     module.functions.push(("any".to_string(), any()));
